@@ -1343,7 +1343,9 @@ def run_C15(ctx):
                 size = (DHI[a["rid"]] - DLO[a["rid"]]) * 4096
                 o = {"0": 0, "1": 1, "4095": 4095, "end-1": size - 1, "end-4096": size - 4096}[a["wo"]]
                 n = {"0": 0, "1": 1, "2": 2, "4096": 4096, "4097": 4097, "8192": 8192, "huge": 1 << 20}[a["wl"]]
-                steps.append(dict(op=op, rid=a["rid"], o=limbs(o), len=limbs(n)))
+                # every third write goes through a buffer handle the backend resolved right after the last table update (an
+                # in-flight request's buffer), i.e. possibly before the log was installed
+                steps.append(dict(op=op, rid=a["rid"], o=limbs(o), len=limbs(n), via_held=(i + len(steps)) % 3 == 0))
             elif op == "use_ring":
                 if not ring_ready:
                     steps.append(dict(op="set_vring_kick", q=0, fd="new"))
